@@ -62,6 +62,13 @@ func Verify(root *etree.Element, sigpath string, extraCerts []*x509.Certificate)
 		return nil, errors.New("xmldsig: multiple signatures found")
 	}
 	sigEl := sigs[0]
+	// What gets hashed below is the SignedInfo element, but the algorithms and
+	// the reference digest are read from a parse of the whole Signature, where
+	// a repeated element overrides the earlier one. Make sure they are one and
+	// the same.
+	if len(sigEl.SelectElements("SignedInfo")) != 1 {
+		return nil, errors.New("xmldsig: invalid signature")
+	}
 	// parse signature tree
 	sigbytes, err := SerializeCanonical(sigEl)
 	if err != nil {
